@@ -520,3 +520,41 @@ func verif_client_UDPProxy_sender(conn net.Conn, sendCh chan msg.Message) {
 	verif.ResetEvents()
 	verif.CallTarget(conn, sendCh)
 }
+
+// SUDPProxy.InWorkConn, the stream the datagram messages travel on (C03 "UDP
+// tunnels preserve datagram payloads", C05): built on the work connection with
+// exactly the layers the proxy declares, in the order the server and the
+// visitor undo them - the limiter (if any) directly on the connection,
+// encryption keyed by the token above it, compression on top - and wrapped as
+// the connection the reader and sender goroutines use.
+//
+//verif:contract (*~/client/proxy.SUDPProxy).InWorkConn
+//verif:props C03 C05
+//verif:kinds post,pre
+func verif_client_SUDPProxy_InWorkConn(pxy *SUDPProxy, conn net.Conn, m *msg.StartWorkConn) {
+	enc, comp := pxy.cfg.Transport.UseEncryption, pxy.cfg.Transport.UseCompression
+	token := pxy.clientCfg.Auth.Token
+	lim := pxy.limiter
+	verif.ResetEvents()
+	pxy.InWorkConn(conn, m)
+	const evEncC, evCompC, evWrap = "golib/io.WithEncryption", "golib/io.WithCompression$", "net.WrapReadWriteCloserToConn"
+	if verif.Called(evWrap) {
+		var below any = conn
+		if lim != nil {
+			verif.Ensures(verif.Same(verif.NthArg[any]("limit.NewReader", 0, 0), below) && verif.Same(verif.NthArg[any]("limit.NewWriter", 0, 0), below) && verif.CalledWith("limit.NewReader", 1, lim) && verif.CalledWith("limit.NewWriter", 1, lim), "limiter_directly_on_the_work_connection")
+			below = any(verif.Ret[io.ReadWriteCloser]("golib/io.WrapReadWriteCloser", 0))
+		}
+		verif.Ensures(verif.Called(evEncC) == enc && verif.Called(evCompC) == comp, "layers_iff_configured")
+		if enc {
+			verif.Ensures(verif.Same(verif.NthArg[any](evEncC, 0, 0), below) && verif.CalledWith(evEncC, 1, []byte(token)), "encryption_keyed_by_token_below_compression")
+			below = verif.Ret[any](evEncC, 0)
+		}
+		if comp {
+			verif.Ensures(verif.Same(verif.NthArg[any](evCompC, 0, 0), below), "compression_directly_above")
+			below = verif.Ret[any](evCompC, 0)
+		}
+		verif.Ensures(verif.Same(verif.NthArg[any](evWrap, 0, 0), below) && verif.Same(verif.NthArg[any](evWrap, 0, 1), any(conn)), "top_of_the_stack_is_the_message_stream")
+	} else {
+		verif.Ensures(enc && verif.CalledWith("net.Conn).Close", 0, conn), "work_connection_closed_when_the_cipher_cannot_be_built")
+	}
+}
